@@ -281,7 +281,7 @@ class Flow:
         if ck in self._pcache:
             return self._pcache[ck]
         eff = self.effects()
-        ctx = {'follow': set(follow), 'eff': eff, 'unroll': unroll, 'count': 0, 'fn': fn}
+        ctx = {'follow': set(follow), 'eff': eff, 'unroll': unroll, 'count': 0, 'fn': fn, 'root': fn}
         res = []
         for evs, out in self._stmt(fn['body'], ctx):
             if out in ('break', 'continue'):
@@ -406,6 +406,29 @@ class Flow:
             return partial
         if k == 'If':
             out = []
+            hc = self._cond_helper(s['cond'], ctx)
+            if hc is not None and ctx.get('depth', 0) < 3:
+                h, neg = hc
+                ctx2 = dict(ctx)
+                ctx2['depth'] = ctx.get('depth', 0) + 1
+                body = self._bound_body(h)
+                call_ev = [{'ev': 'call', 'n': h['call'], 'l': h['call'].get('l')}]
+                for evs2, o2 in self._stmt(body, ctx2):
+                    if o2 != 'return':
+                        out.append((call_ev + evs2, o2))
+                        continue
+                    ri = [i for i, e_ in enumerate(evs2) if e_['ev'] == 'return']
+                    rv = strip_all_casts(evs2[ri[-1]]['n'].get('value')) if ri else None
+                    known = bool(rv.get('v')) if isinstance(rv, dict) and rv.get('lit') == 'bool' else None
+                    if ri:
+                        evs2 = evs2[:ri[-1]] + evs2[ri[-1] + 1:]
+                    for taken, branch in ((True, s.get('then')), (False, s.get('else'))):
+                        if known is not None and (known != neg) != taken:
+                            continue
+                        bev = [{'ev': 'branch', 'n': s['cond'], 'taken': taken, 'l': s.get('l'), 'via_helper': h['name']}]
+                        for evs3, o3 in self._stmt(branch, ctx):
+                            out.append((call_ev + evs2 + bev + evs3, o3))
+                return out
             for evs, o in self._expr_events(s['cond'], ctx):
                 if o != 'normal':
                     out.append((evs, o))
@@ -456,16 +479,17 @@ class Flow:
         # expression statement: a plain call of a private helper of the same class (an extracted method) is analysed as if its
         # body stood here, so that splitting an anchor function into helpers changes no verdict
         h = self._inlinable_helper(s, ctx)
-        if h is not None and ctx.get('depth', 0) < 2:
+        if h is not None and ctx.get('depth', 0) < 3:
             pre = self._expr_events(s, ctx)   # argument evaluation + the call event itself (+ its exceptional edges)
             out = []
             ctx2 = dict(ctx)
             ctx2['depth'] = ctx.get('depth', 0) + 1
+            body = self._bound_body(h)
             for evs, o in pre:
                 if o != 'normal':
-                    out.append((evs, o))
+                    # the exceptional edge of the call itself is what the inlined body will produce; keep only foreign ones
                     continue
-                for evs2, o2 in self._stmt(h['body'], ctx2):
+                for evs2, o2 in self._stmt(body, ctx2):
                     out.append((evs + evs2, 'normal' if o2 == 'return' else o2))
             return out
         return self._expr_events(s, ctx)
@@ -476,21 +500,100 @@ class Flow:
                      'uncompressedFileWriteThread', 'compressedFileReadThread', 'compressedFileWriteThread', 'is_open', 'good', 'eof',
                      'defaultLogContainerSize', 'setDefaultLogContainerSize'}
 
-    def _inlinable_helper(self, s, ctx):
-        if not isinstance(s, dict) or s.get('k') != 'Call' or not s.get('calleeInRoot'):
+    def _helper_target(self, s, ctx, want_ret):
+        """the function (or lambda) a call statement / condition can be replaced by: a private method of the same class called on
+        this, a file-local function of the repository, or a local lambda.  returns (body, param ids, args) or None"""
+        if not isinstance(s, dict) or s.get('k') != 'Call':
             return None
         fn = ctx['fn']
-        if s.get('clsq') != fn.get('class') or s.get('virt') or s.get('fn') in self.ANCHOR_SIMPLE:
+        # local lambda:  auto f = [&](...) {...};  f(...);
+        if s.get('ck') == 'operator' and s.get('op') == '()' and s.get('args'):
+            o = strip_all_casts(s['args'][0])
+            if isinstance(o, dict) and o.get('k') == 'Ref' and o.get('dk') == 'local':
+                lam = self._local_lambda(ctx['root'], o['id'])
+                if lam is not None:
+                    return {'body': lam['body'], 'params': lam.get('params', []), 'args': s['args'][1:], 'name': 'lambda ' + o.get('name', '')}
             return None
-        if fn.get('class') != 'Vector::BLF::File':
-            return None
-        o = strip_all_casts(s.get('obj')) if s.get('obj') is not None else None
-        if o is not None and not (isinstance(o, dict) and (o.get('k') == 'This' or (o.get('k') == 'Ref' and o.get('dk') == 'parm'))):
+        if not s.get('calleeInRoot') or s.get('virt'):
             return None
         cands = [f for f in self.F.functions.get(s.get('callee'), []) if f['sig'] == s.get('csig')]
-        if len(cands) != 1 or cands[0]['name'] == fn['name'] or cands[0].get('ret') != 'void':
+        if len(cands) != 1 or cands[0]['name'] == fn['name'] or cands[0]['name'] == ctx['root']['name']:
             return None
-        return cands[0]
+        c = cands[0]
+        if c.get('ret') != want_ret:
+            return None
+        if s.get('ck') == 'member':
+            if s.get('clsq') != ctx['root'].get('class') or c.get('access') != 2 or s.get('fn') in self.ANCHOR_SIMPLE:
+                return None   # only private helpers of the class under analysis (public methods and the transfer functions are the
+                              # anchors the rules talk about)
+            o = strip_all_casts(s.get('obj')) if s.get('obj') is not None else None
+            if o is not None and not (isinstance(o, dict) and (o.get('k') == 'This' or (o.get('k') == 'Ref' and o.get('dk') == 'parm'))):
+                return None
+        elif s.get('ck') == 'function':
+            if c.get('kind') != 'function':
+                return None
+        else:
+            return None
+        return {'body': c['body'], 'params': c['params'], 'args': s.get('args', []), 'name': c['name']}
+
+    def _local_lambda(self, root, vid):
+        cache = root.setdefault('_lambdas', None)
+        if cache is None:
+            cache = {}
+            assigned = set()
+            for n in walk(root['body']):
+                if n.get('k') == 'Decl':
+                    for v in n['vars']:
+                        init = v.get('init')
+                        x = init
+                        while isinstance(x, dict) and x.get('k') in ('Cast', 'Construct') and (x.get('sub') or x.get('args')):
+                            x = x.get('sub') or x['args'][0]
+                        if isinstance(x, dict) and x.get('k') == 'Lambda':
+                            cache[v['id']] = x
+            root['_lambdas'] = cache
+        return cache.get(vid)
+
+    @staticmethod
+    def _subst(node, mapping):
+        """copy of a statement tree with parameter references replaced by the caller's locals they are bound to (by reference)"""
+        if not mapping:
+            return node
+        if isinstance(node, list):
+            return [Flow._subst(x, mapping) for x in node]
+        if not isinstance(node, dict):
+            return node
+        if node.get('k') == 'Ref' and node.get('id') in mapping:
+            return dict(mapping[node['id']])
+        return {k: (Flow._subst(v, mapping) if isinstance(v, (dict, list)) else v) for k, v in node.items()}
+
+    def _bound_body(self, h):
+        mapping = {}
+        for p, a in zip(h['params'], h['args']):
+            x = strip_all_casts(a)
+            if isinstance(x, dict) and x.get('k') == 'Un' and x.get('op') in ('&', '*'):
+                x = strip_all_casts(x['sub'])
+            if isinstance(x, dict) and x.get('k') == 'Ref' and x.get('dk') in ('local', 'parm') and ('&' in p.get('t', '') or p.get('t', '').endswith('*')):
+                mapping[p['id']] = x
+        return self._subst(h['body'], mapping)
+
+    def _inlinable_helper(self, s, ctx):
+        h = self._helper_target(s, ctx, 'void')
+        if h is None and isinstance(s, dict) and s.get('k') == 'Call' and s.get('ck') == 'operator' and s.get('op') == '()':
+            h = self._helper_target(s, ctx, None)
+        return h
+
+    def _cond_helper(self, cond, ctx):
+        c = strip(cond)
+        neg = False
+        while isinstance(c, dict) and (c.get('k') == 'Cast' or (c.get('k') == 'Un' and c.get('op') == '!')):
+            if c.get('k') == 'Un':
+                neg = not neg
+            c = strip(c['sub'])
+        h = self._helper_target(c, ctx, 'bool')
+        if h is None:
+            return None
+        h['call'] = c
+        return h, neg
 
     @staticmethod
     def _handler_for(trystmt, eff):
